@@ -203,6 +203,13 @@ def run(prog: Program) -> Results:
                         f"position makes the test fail and the edit is refused because of the wrapper")
     callee_head_acceptance(prog, res, "R-C05-7", r7)
     creation_sees_inherits(prog, res, "R-C05-10")
+    from sa.rules.c04 import filter_in_search
+    filter_in_search(prog, res, "R-C05-11")  # the attrpath root is found among the attrpath-derived bindings, whatever comes first
+    from sa.rules.c12 import check_reader
+    res.rule("R-C05-12", "the NPath reader decodes what the documentation promises: inside a quoted segment every documented escape "
+             "(`\\\\`, `\\\"`, …) decodes to the character it stands for, so a quoted path addresses the binding whose name it spells "
+             "(shared with R-C12-1)", floor=1)
+    check_reader(prog, res, "R-C05-12")  # a quoted path segment decodes to the name it spells (shared with R-C12-1)
     from sa.rules import merge
     merge.check(prog, res, "R-C05-5", "R-C05-6")
     from sa.rules import cursor
